@@ -1,9 +1,93 @@
-From PM.theories Require Import Base Expr Client.
+(* Props/C08.v — Synchronous client returns only the reply to its own request.
+   ONLY statements, about [execute code FS F]: the model of the client transaction instantiated with the
+   skeleton regenerated from pymodbus/transaction.py, over an arbitrary framer [F] and transport script. *)
+From PM.theories Require Import Base Expr Client CorrClient.
 From PM.Generated Require Import GenClient.
 From PM.proofs Require Import Client_proofs.
 Open Scope list_scope.
 Open Scope Z_scope.
 
+(* the core of the property as given (kept visible; REFUTED below on the transaction id and the function code) *)
+Definition C08_full_statement : Prop :=
+  forall FS (F : framer FS) c st rq sc st' o m,
+    s_tx st = [] -> execute code FS F c st rq sc = (st', o) -> o_res o = RReply m ->
+    (c_framing c = FTcp -> m_tid m = next_tid code (s_tid st)) /\
+    (c_framing c <> FTcp -> m_uid m = r_unit rq) /\
+    (m_fc m = r_fc rq \/ m_fc m = Z.lor (r_fc rq) 128).
+
+(* getNextTID wraps: (t + 1) mod 65536 *)
 Theorem C08_tid_wrap : forall t, 0 <= t -> next_tid code t = (t + 1) mod 65536.
 Proof. exact next_tid_mod. Qed.
 Print Assumptions C08_tid_wrap.
+
+(* invariant over all histories (incl. wrap): the transaction table is empty between calls and the counter
+   stays in range — so nothing of an earlier call can be returned *)
+Theorem C08_inv : forall FS (F : framer FS) c st rq sc st' o,
+  s_tx st = [] -> tid_ok (s_tid st) -> proc_clean FS F ->
+  execute code FS F c st rq sc = (st', o) ->
+  s_tx st' = [] /\ tid_ok (s_tid st') /\ (s_tid st' = s_tid st \/ s_tid st' = (s_tid st + 1) mod 65536).
+Proof. exact execute_inv. Qed.
+Print Assumptions C08_inv.
+
+(* a returned reply was handed over by processIncomingPacket DURING THIS CALL, from the bytes this call's
+   _transact returned, by a framer whose buffer had been reset if it held anything at entry *)
+Theorem C08_from_this_call : forall FS (F : framer FS) c st rq sc st' o m,
+  s_tx st = [] -> execute code FS F c st rq sc = (st', o) -> o_res o = RReply m ->
+  exists fs resp fs' ms,
+    (fs = s_fs st \/ fs = f_reset F (s_fs st)) /\ (f_nonempty F (s_fs st) = true -> fs = f_reset F (s_fs st)) /\
+    f_process F fs resp (r_unit rq) = (fs', ms, None) /\ In m ms.
+Proof. exact execute_from_this_call. Qed.
+Print Assumptions C08_from_this_call.
+
+(* a well-formed reply served by a healthy transport is returned decoded (m is what the framer decodes it to),
+   from every state that satisfies the invariant, for every framing, request and retry setting *)
+Theorem C08_conformant_reply : forall FS (F : framer FS) c st rq reply sc rest m,
+  s_tx st = [] -> c_bcast c && (r_unit rq =? 0) = false -> 0 <= retries_given c -> reply <> [] ->
+  (c_roi c = true -> exists mb, decode_data 7 (c_framing c) reply = Ok mb /\ mb_unit mb = Some (r_unit rq)) ->
+  reset_empties FS F -> conformant_frame FS F reply (r_unit rq) m ->
+  serves (c_framing c) (exp_of c rq) (full_of FS c st rq) reply sc ->
+  exists st' o,
+    execute code FS F c st rq ((if s_conn st then [] else [Nothing]) ++ attempt true sc ++ rest) = (st', o)
+    /\ o_res o = RReply m /\ s_tx st' = [] /\ s_tid st' = next_tid code (s_tid st).
+Proof.
+  intros FS F c st rq reply sc rest m Htx Hb Hr Hne Hu Hreset Hframe Hs.
+  exact (execute_empties_then_reply FS F c st rq reply sc rest m 0%nat Htx Hb Hr Hr (or_introl eq_refl) Hne Hu Hreset Hframe Hs).
+Qed.
+Print Assumptions C08_conformant_reply.
+
+(* PARTIAL pairing: the unit id matches (given the framers' unit filter), except for requests to unit 0 / 255 *)
+Theorem C08_pairing_partial : forall FS (F : framer FS) c st rq sc st' o m,
+  s_tx st = [] -> unit_filter FS F -> r_unit rq <> 0 -> r_unit rq <> 255 ->
+  execute code FS F c st rq sc = (st', o) -> o_res o = RReply m -> m_uid m = r_unit rq.
+Proof. exact execute_pairing_unit. Qed.
+Print Assumptions C08_pairing_partial.
+
+(* REFUTED (finding #17): TCP — a well-formed frame with transaction id 78 is returned for request id 1
+   (T = transitions recorded from the real ModbusSocketFramer on this input) *)
+Theorem C08_pairing_refuted :
+  exists (T : ftable) c st rq sc m,
+    s_tx st = [] /\ c_framing c = FTcp /\
+    o_res (snd (execute code Z (table_framer T) c st rq sc)) = RReply m /\
+    m_tid m <> next_tid code (s_tid st).
+Proof. exact pairing_tid_refuted. Qed.
+Print Assumptions C08_pairing_refuted.
+
+(* REFUTED (finding #17): RTU — a ReadCoilsResponse from the right unit answers a register read *)
+Theorem C08_pairing_fc_refuted :
+  exists (T : ftable) c st rq sc m,
+    s_tx st = [] /\
+    o_res (snd (execute code Z (table_framer T) c st rq sc)) = RReply m /\
+    m_uid m = r_unit rq /\ m_fc m <> r_fc rq /\ m_fc m <> Z.lor (r_fc rq) 128.
+Proof. exact pairing_fc_refuted. Qed.
+Print Assumptions C08_pairing_fc_refuted.
+
+(* the hypotheses are satisfiable (demo framer, concrete reply, history ending in a tid wrap) *)
+Example C08_nonvacuous :
+  exists st' o,
+    execute code unit demo_tcp cfg_retry (Build_cstate 65535 [] tt [] false) rq_rh
+      ([Nothing] ++ empties 2 true false
+         ++ attempt false [Data (firstn 8 (reply_rh 0)); Data (skipn 8 (reply_rh 0))] ++ [])
+      = (st', o)
+    /\ o_res o = RReply {| m_tid := 0; m_uid := 5; m_fc := 3; m_id := 0 |} /\ s_tx st' = [] /\ s_tid st' = 0.
+Proof. exact retry_example. Qed.
+Print Assumptions C08_nonvacuous.
